@@ -3,6 +3,9 @@ Small-step model of request/reply correlation in netconf/src/session.rs (C05, C1
   session.rs:253-282   Session::rpc          → `St.send`, `St.openGate`
   session.rs:284-333   Session::recv (loop)  → `St.poll`
   session.rs:131-150   OutstandingRequest    → `Slot`
+  session.rs:288       last_message_id.increment() → `nextId`; ghost `consumed`, kept by `St.step`
+                       (`St.sendAct` / `St.openGateAct` / `St.closeAct` wrap `St.send` / `St.openGate` /
+                       `St.close`, which are unchanged; `rollbackOnFail` is a defective variant)
 Granularity: one model action = everything a task does between two `.await` suspension points.
 All shared state (`requests`, `transport_rx`, `transport_tx`) is behind tokio async mutexes, so
 this is the granularity at which interleavings are observable.
@@ -75,6 +78,13 @@ structure St where
   sent : List Nat := []             -- message-ids written to the transport, in order
   lost : List Msg := []             -- ghost: messages taken off the transport and not parked
   delivered : List Msg := []        -- ghost: every message the server ever put on the transport
+  /-- ghost: every message-id drawn by an `rpc()` call (`self.last_message_id.increment()`,
+      session.rs:288), in order — also the ids of calls that then failed (builder error, transport
+      error before or after the bytes left); maintained by `St.step` -/
+  consumed : List Nat := []
+  /-- `false`: the code as it is — an id once drawn is never given back. `true`: defective variant
+      in which a failing `rpc()` call sets the counter back (`St.afterFail`) -/
+  rollbackOnFail : Bool := false
   deriving DecidableEq, Repr, Inhabited
 
 def St.slot (s : St) (id : Nat) : Option Slot := (s.slots.find? (·.1 == id)).map (·.2)
@@ -255,14 +265,38 @@ inductive Act where
   | close
   deriving DecidableEq, Repr, Inhabited
 
+/-- the id counter after an `rpc()` call has returned an error: untouched (the code as it is), or
+— variant `rollbackOnFail` — set back by one -/
+def St.afterFail (s : St) : St := if s.rollbackOnFail then { s with nextId := s.nextId - 1 } else s
+
+/-- an `rpc()` call as an action of a history: `St.send`, the ghost record of the id it drew, and
+(variant) the rollback if it failed at once -/
+def St.sendAct (s : St) (buildOk : Bool) : St :=
+  if s.rpc.isSome then s                      -- impossible (A2); `St.send` does nothing either
+  else
+    let r := s.send buildOk
+    let s' := { r.1 with consumed := s.consumed ++ [s.nextId + 1] }
+    match r.2 with
+    | .sendErr => s'.afterFail
+    | _ => s'
+
+/-- the gate opens; a blocked `rpc()` that now fails returns its error (variant: rollback) -/
+def St.openGateAct (s : St) : St :=
+  match s.openGate.2 with
+  | .sendErr => s.openGate.1.afterFail
+  | _ => s.openGate.1
+
+/-- the transport fails; a blocked `rpc()` returns its error (variant: rollback) -/
+def St.closeAct (s : St) : St := if s.rpc.isSome then s.close.afterFail else s.close
+
 def St.step (s : St) : Act → St
-  | .send b => (s.send b).1
-  | .gate true => (s.openGate).1
+  | .send b => s.sendAct b
+  | .gate true => s.openGateAct
   | .gate false => s.closeGate
   | .poll f => s.poll f
   | .deliver m => s.deliver m
   | .drop f => s.drop f
-  | .close => s.close
+  | .close => s.closeAct
 
 def St.run (s : St) (acts : List Act) : St := acts.foldl St.step s
 
